@@ -579,6 +579,44 @@ func init() {
 				return true
 			})
 		}
+		// order inside syncChunks' first locked section: dropStale BEFORE the hull copy apply(sc, true); and a7caf30: the
+		// selector leaves a chunk wholly open while the journal has confirmed more records than the index accounts for
+		dropPos, copyPos := token.NoPos, token.NoPos
+		if fd := funcDecl(cf, "cindex", "syncChunks"); fd != nil {
+			ast.Inspect(fd.Body, func(n ast.Node) bool {
+				if ce, ok := n.(*ast.CallExpr); ok {
+					sel := c07Sel(ce.Fun)
+					if strings.HasSuffix(sel, ".dropStale") && dropPos == token.NoPos {
+						dropPos = ce.Pos()
+					}
+					if strings.HasSuffix(sel, ".apply") && len(ce.Args) == 2 && c07Sel(ce.Args[1]) == "true" && copyPos == token.NoPos {
+						copyPos = ce.Pos()
+					}
+				}
+				return true
+			})
+		}
+		if copyPos == token.NoPos {
+			problem("cindex.syncChunks: the hull copy apply(sc, true) was not found")
+		}
+		l.p("/-- in `syncChunks` the stale entries are taken out (`dropStale`) BEFORE the known hulls are copied into the new list")
+		l.p("(`apply(sc, true)`): copied first, a stale hull would survive in the new entry and `lightFill` would skip it -/")
+		l.p("def syncChunksDropsStaleBeforeHullCopy : Bool := %s", leanBool(dropPos != token.NoPos && copyPos != token.NoPos && dropPos < copyPos))
+		opens := false
+		for _, f := range parFiles {
+			if fd := funcDecl(f, "chkSelector", "updatePoss"); fd != nil {
+				usesKnown := c07Reaches(c07PkgFuncs(parFiles), fd, "KnownRecordsInfo", 1)
+				ast.Inspect(fd.Body, func(n ast.Node) bool {
+					if be, ok := n.(*ast.BinaryExpr); ok && be.Op == token.GTR && strings.HasSuffix(c07Sel(be.X), ".count") && c07Sel(be.Y) == "known" {
+						opens = usesKnown
+					}
+					return true
+				})
+			}
+		}
+		l.p("/-- `chkSelector.updatePoss` (a7caf30): when the chunk has confirmed more records than the time index accounts for")
+		l.p("(`chkSt.count > known`, `KnownRecordsInfo`), neither hull nor index closes the window — the whole chunk stays open -/")
+		l.p("def selectorOpensChunkAheadOfIndex : Bool := %s", leanBool(opens))
 		l.p("/-- `dropStale` looks only at entries read from the snapshot file (`chkInfo.loaded`): a live entry, whose chunk is ahead")
 		l.p("of it for the moment between a confirmed write and its notification, is never dropped (7ea0278) -/")
 		l.p("def dropStaleOnlySnapshotEntries : Bool := %s", leanBool(onlyLoaded))
